@@ -90,6 +90,61 @@ def ob_extrapolate(env):
     env.claim("extended_abscissa_increasing", psi1D[n0] > psi1D[n0 - 1])
 
 
+def ob_extrapolate_finite(env):
+    """extrapolate_profiles with ANY admissible pressure profile (non-negative, possibly vanishing at the edge as measured profiles do): the extended
+    pressure values are finite numbers (symbolic mode: no divisor of the extension can vanish; concrete replay: numpy.isfinite of the result)"""
+    sym = env.mode == "sym"
+    psi_sol = 50.0
+    fn, info = c14.prologue()
+    psi2D = c14.mkarr(env, "psi2D", (2, 2))
+    psi1D = c14.mkarr(env, "psi1D", (3,))
+    fpol1D = c14.mkarr(env, "fpol1D", (3,))
+    pressure = c14.mkarr(env, "pressure", (3,), lo=0, hi=9)
+    env.assume((psi1D[1] > psi1D[0]) & (psi1D[2] > psi1D[1]) if sym else (psi1D[1] > psi1D[0] and psi1D[2] > psi1D[1]), "psi1D increasing")
+    me = types.SimpleNamespace(user_options=types.SimpleNamespace(reverse_current=False, psi_divide_twopi=False, reverse_Bt=False, extrapolate_profiles=True,
+                                                                 psi_sol=psi_sol, psi_sol_inner=psi_sol))
+    import warnings
+    try:
+        with warnings.catch_warnings():
+            warnings.simplefilter("ignore")
+            if sym:
+                with patched((tok, "np", PROXY)):
+                    fn.__globals__["np"] = PROXY
+                    try:
+                        loc = fn(me, None, None, psi2D, psi1D, fpol1D, pressure, None, None)
+                    finally:
+                        fn.__globals__["np"] = numpy
+            else:
+                loc = fn(me, None, None, psi2D, psi1D, fpol1D, pressure, None, None)
+    except UnboundLocalError as e:
+        if "psiSOL" not in str(e):
+            raise
+        env.tag("no_extension_needed:constructor_stops_with_UnboundLocalError")
+        return
+    if not sym:
+        env.witness("extended")
+        env.claim("extended_pressure_is_finite(no_division_by_a_vanishing_edge_value)", bool(numpy.all(numpy.isfinite(numpy.asarray(loc["pressure"], dtype=float)))))
+    else:
+        # force the appended values through the normal form while the divisor claim is armed (divisors are examined when a term is first used)
+        env.claim("extension_ran_to_the_end", len(loc["pressure"]) == 3 + 49)
+        # every division that enters an appended value (also inside the argument of exp) has a divisor that cannot vanish
+        seen = set()
+
+        def divisors(t):
+            if t.get_id() in seen:
+                return
+            seen.add(t.get_id())
+            if z3.is_app(t):
+                if t.decl().kind() == z3.Z3_OP_DIV and not z3.is_rational_value(t.arg(1)):
+                    yield t.arg(1)
+                for ch in t.children():
+                    yield from divisors(ch)
+        for k in (3, 51):
+            for dv in divisors(core.lift_real(loc["pressure"][k])):
+                env.claim("extended_pressure_is_finite(no_division_by_a_vanishing_edge_value)", core.SymBool(dv != 0))
+        env.witness("extended")
+
+
 def _mk_extrapolate_range(decreasing):
     """extrapolate_profiles with different limits for the outer and the inner SOL: the profiles are extended to the limit that lies FURTHER out
     (larger psi if psi increases outwards, smaller if it decreases), so that no grid point falls beyond the extended profile"""
@@ -288,6 +343,10 @@ for _rc in (False, True):
                                   encodes=["hypnotoad.cases.tokamak:TokamakEquilibrium.__init__"],
                                   desc="the same without psi_axis_gfile/psi_bdry_gfile (equilibrium built directly from arrays, not read from a geqdsk file)",
                                   bounds="arrays 2x2 / length 3, symbolic contents"))
+OBLIGATIONS.append(Ob("extrapolated_pressure_finite", ob_extrapolate_finite, tier="quick", family="extrapolation",
+                      encodes=["hypnotoad.cases.tokamak:TokamakEquilibrium.__init__"],
+                      desc="extrapolate_profiles: for every non-negative pressure profile (also one that vanishes at the edge) the appended pressure values are finite",
+                      bounds="profiles of length 3, pressure in [0, 9] symbolic"))
 OBLIGATIONS.append(Ob("extrapolated_pressure_continuous", ob_extrapolate, tier="quick", family="extrapolation",
                       encodes=["hypnotoad.cases.tokamak:TokamakEquilibrium.__init__"],
                       desc="extrapolate_profiles: appended pressure knots = p0*exp((psi-psi0)*p'/p0) (continuous at the last profile point), fpol constant, abscissa to psi_sol",
